@@ -126,7 +126,7 @@ Ltac step_inv H :=
   repeat match type of H with
          | context [match ?k with KAdd => _ | KTry => _ end] => destruct k
          | context [if ?c then _ else _] => let E := fresh "E" in destruct c eqn:E
-         | context [let '(_, _) := finish_op ?a ?b ?c ?d in _] => let Hfin := fresh "Hfin" in destruct (finish_op a b c d) as [? ?] eqn:Hfin
+         | context [let '(_, _) := finish_op ?a ?b ?c ?d in _] => let Hfin := fresh "Hfin" in let thf := fresh "thf" in let gf := fresh "gf" in destruct (finish_op a b c d) as [thf gf] eqn:Hfin
          | context [match t_cur ?th with _ => _ end] => let Ec := fresh "Ecur" in destruct (t_cur th) eqn:Ec
          end;
   try discriminate; inversion H; subst; clear H.
@@ -151,3 +151,68 @@ Proof. intros; induction n; cbn; auto. Qed.
 
 (* reachability *)
 Definition reachable (cfg : config) (s0 s : state) : Prop := exists sched, s = run state (step cfg) sched s0.
+
+(* ---- pointwise view of the thread list after a step ---- *)
+Definition woken (x0 x : thread) : Prop := x = x0 \/ x = wake_push x0 \/ x = wake_pop x0.
+
+Lemma woken_broadcast_push ths t x : nth_error (broadcast wake_push ths) t = Some x -> exists x0, nth_error ths t = Some x0 /\ woken x0 x.
+Proof. rewrite nth_error_broadcast. destruct (nth_error ths t) as [x0|]; cbn; intros H; inversion H; subst. exists x0; unfold woken; auto. Qed.
+Lemma woken_broadcast_pop ths t x : nth_error (broadcast wake_pop ths) t = Some x -> exists x0, nth_error ths t = Some x0 /\ woken x0 x.
+Proof. rewrite nth_error_broadcast. destruct (nth_error ths t) as [x0|]; cbn; intros H; inversion H; subst. exists x0; unfold woken; auto. Qed.
+Lemma woken_signal_pop w ths t x : nth_error (signal asleep_pop wake_pop w ths) t = Some x -> exists x0, nth_error ths t = Some x0 /\ woken x0 x.
+Proof.
+  destruct (signal_cases asleep_pop wake_pop w ths) as [[_ ->]|(i & th & Hi & _ & ->)].
+  - intros H; exists x; unfold woken; auto.
+  - rewrite nth_error_upd. destruct ((t =? i) && (i <? length ths)) eqn:E.
+    + apply andb_prop in E. destruct E as [E _]. apply Nat.eqb_eq in E; subst. intros H; inversion H; subst. exists th; unfold woken; auto.
+    + intros H; exists x; unfold woken; auto.
+Qed.
+Lemma woken_signal_push w ths t x : nth_error (signal asleep_push wake_push w ths) t = Some x -> exists x0, nth_error ths t = Some x0 /\ woken x0 x.
+Proof.
+  destruct (signal_cases asleep_push wake_push w ths) as [[_ ->]|(i & th & Hi & _ & ->)].
+  - intros H; exists x; unfold woken; auto.
+  - rewrite nth_error_upd. destruct ((t =? i) && (i <? length ths)) eqn:E.
+    + apply andb_prop in E. destruct E as [E _]. apply Nat.eqb_eq in E; subst. intros H; inversion H; subst. exists th; unfold woken; auto.
+    + intros H; exists x; unfold woken; auto.
+Qed.
+Lemma woken_wake_pushers b w ths t x : nth_error (wake_pushers b w ths) t = Some x -> exists x0, nth_error ths t = Some x0 /\ woken x0 x.
+Proof. destruct b; cbn; [apply woken_broadcast_push|apply woken_signal_push]. Qed.
+Lemma woken_id ths t x : nth_error ths t = Some x -> exists x0, nth_error ths t = Some x0 /\ woken x0 x.
+Proof. intros; exists x; unfold woken; auto. Qed.
+
+Lemma nth_error_step_list (ths1 : list thread) tid th' extra t x n :
+  nth_error (upd tid th' ths1 ++ extra) t = Some x -> length ths1 = n -> tid < n ->
+  (t = tid /\ x = th') \/ (t <> tid /\ nth_error ths1 t = Some x) \/ (n <= t /\ nth_error extra (t - n) = Some x).
+Proof.
+  intros H Hl Ht. destruct (Nat.lt_ge_cases t n) as [Hlt|Hge].
+  - rewrite nth_error_app1 in H by (rewrite upd_length; lia).
+    destruct (Nat.eq_dec t tid) as [->|Hne].
+    + rewrite nth_error_upd_eq in H by lia. inversion H; auto.
+    + rewrite nth_error_upd_neq in H by auto. auto.
+  - rewrite nth_error_app2 in H by (rewrite upd_length; lia). rewrite upd_length, Hl in H. auto.
+Qed.
+
+Lemma nth_error_repeat {A} (a : A) n t x : nth_error (repeat a n) t = Some x -> x = a.
+Proof. intros H. apply nth_error_In in H. now apply repeat_spec in H. Qed.
+
+(* [others H]: H : nth_error (st s') t = Some x, for the thread list produced by a step of [tid] (with Hth in the
+   context): splits into the stepping thread / another old thread (possibly woken) / a newly created worker *)
+Ltac others H :=
+  match type of H with
+  | nth_error (upd ?tid ?th' ?l ++ ?extra) ?t = Some ?x => idtac
+  | nth_error (upd ?tid ?th' ?l) ?t = Some ?x => rewrite <- (app_nil_r (upd tid th' l)) in H
+  end;
+  match type of H with
+  | nth_error (upd ?tid ?th' ?l ++ ?extra) ?t = Some ?x =>
+    match goal with
+    | Hth : nth_error ?ths tid = Some _ |- _ =>
+      let Hlen := fresh "Hlen" in
+      assert (Hlen : length l = length ths) by (first [reflexivity | apply broadcast_length | apply signal_length | apply wake_pushers_length]);
+      apply (nth_error_step_list l tid th' extra t x (length ths)) in H; [|exact Hlen|exact (nth_error_Some_lt _ _ _ Hth)];
+      destruct H as [[-> ->]|[[Hne H]|[Hge H]]];
+      [ | first [apply woken_broadcast_push in H | apply woken_broadcast_pop in H | apply woken_signal_pop in H
+                | apply woken_wake_pushers in H | apply woken_id in H];
+          let x0 := fresh "x0" in let Hw := fresh "Hwoken" in destruct H as (x0 & H & Hw)
+        | first [apply nth_error_repeat in H; subst x | (destruct (t - length ths); discriminate H)] ]
+    end
+  end.
